@@ -76,7 +76,7 @@ RULE = ("random projects (context trees, shadowed modules, hard/soft/if-then dep
 
 
 def run(chk):
-    n = 400 if chk.tier == "quick" else 12000
+    n = 1200 if chk.tier == "quick" else 12000
     chk.rule = RULE
     projcheck.campaign(chk, PROF, n, OBS, oracle, nontrivial)
     chk.assumptions = ["closure oracle evaluated on the implementation's own dump (selected modules with their loaded selects/provides)"]
